@@ -70,19 +70,187 @@ fn show_mask(m: &[Option<bool>]) -> String {
 
 /// the string value of id `k` (short / inline / longer than 12 bytes so views need a buffer)
 fn sval(k: u32) -> String {
+    if k == 60 {
+        return String::new(); // the empty string is a regular value
+    }
     // lengths: <= 4 bytes, <= 4 bytes, 8..9 bytes (inline view, 5..12), > 12 bytes (view needs a data buffer)
     let pad = ["", "x", "inline-", "a-long-prefix-over-twelve-bytes-"][(k % 4) as usize];
     format!("{pad}{k}")
 }
 fn sval_id(s: &[u8]) -> Option<u32> {
     let s = std::str::from_utf8(s).ok()?;
+    if s.is_empty() {
+        return Some(60);
+    }
     let k: u32 = s.trim_start_matches(|c: char| !c.is_ascii_digit()).parse().ok()?;
     // strict: every byte must be the one the id was built from
     if sval(k) == s { Some(k) } else { None }
 }
 
 const ALL_TYPES: &[&str] =
-    &["i32", "i64", "bool", "utf8", "lutf8", "bin", "lbin", "sv", "bv", "dict", "fsb", "list", "struct", "f64", "ts", "fsl"];
+    &["i32", "i64", "bool", "utf8", "lutf8", "bin", "lbin", "sv", "bv", "dict", "fsb", "list", "struct", "f64", "ts", "fsl", "dicts", "dicti8", "dictu8", "dictu16", "dictu64"];
+
+/// dictionary realisations: (key type, value type); `dicts` = inputs of one kernel call share one values array
+fn dict_kind(ty: &str) -> Option<(&'static str, &'static str)> {
+    match ty {
+        "dict" | "dicts" => Some(("i32", "utf8")),
+        "dicti8" => Some(("i8", "utf8")),
+        "dictu8" => Some(("u8", "lutf8")),
+        "dictu16" => Some(("u16", "bin")),
+        "dictu64" => Some(("u64", "lbin")),
+        _ => None,
+    }
+}
+fn key_type(k: &str) -> DataType {
+    match k {
+        "i8" => DataType::Int8,
+        "u8" => DataType::UInt8,
+        "u16" => DataType::UInt16,
+        "u64" => DataType::UInt64,
+        _ => DataType::Int32,
+    }
+}
+fn value_type(v: &str) -> DataType {
+    match v {
+        "lutf8" => DataType::LargeUtf8,
+        "bin" => DataType::Binary,
+        "lbin" => DataType::LargeBinary,
+        _ => DataType::Utf8,
+    }
+}
+
+/// dictionary VALUES array from explicit (bytes, valid) entries: a null slot keeps its bytes
+fn build_dict_values(vkind: &str, entries: &[(Vec<u8>, bool)]) -> ArrayRef {
+    let mut data: Vec<u8> = vec![];
+    let mut offs: Vec<i64> = vec![0];
+    for (b, _) in entries {
+        data.extend_from_slice(b);
+        offs.push(data.len() as i64);
+    }
+    let nulls = if entries.iter().all(|e| e.1) { None } else { Some(NullBuffer::from(entries.iter().map(|e| e.1).collect::<Vec<bool>>())) };
+    let o32 = || arrow_buffer::OffsetBuffer::new(ScalarBuffer::from(offs.iter().map(|x| *x as i32).collect::<Vec<i32>>()));
+    let o64 = || arrow_buffer::OffsetBuffer::new(ScalarBuffer::from(offs.clone()));
+    let buf = Buffer::from_vec(data.clone());
+    match vkind {
+        "lutf8" => Arc::new(LargeStringArray::new(o64(), buf, nulls)),
+        "bin" => Arc::new(BinaryArray::new(o32(), buf, nulls)),
+        "lbin" => Arc::new(LargeBinaryArray::new(o64(), buf, nulls)),
+        _ => Arc::new(StringArray::new(o32(), buf, nulls)),
+    }
+}
+
+/// dictionary array for `rows`: values hold the ids present (sometimes twice), unused entries, padding
+/// up to near the key type's capacity, and two NULL value slots (one over empty bytes, one over the bytes
+/// of a present value); a null row is a null key or a valid key pointing at a null value slot
+fn build_dict(ty: &str, rows: &[Row], salt: usize) -> ArrayRef {
+    let (kkind, vkind) = dict_kind(ty).unwrap();
+    let mut present: Vec<u32> = rows.iter().flatten().copied().collect();
+    present.sort();
+    present.dedup();
+    let mut entries: Vec<(Vec<u8>, bool)> = present.iter().map(|&k| (sval(k).into_bytes(), true)).collect();
+    let mut pos: Vec<Vec<usize>> = (0..present.len()).map(|i| vec![i]).collect();
+    if salt % 3 == 1 && !present.is_empty() {
+        // duplicate entry for the first present id
+        pos[0].push(entries.len());
+        entries.push((sval(present[0]).into_bytes(), true));
+    }
+    for u in [61 + salt as u32 % 3, 70] {
+        entries.push((sval(u).into_bytes(), true));
+    }
+    let cap: usize = match kkind {
+        "i8" => 127,
+        "u8" => 255,
+        _ => 400,
+    };
+    let pad = if salt % 5 == 0 && kkind != "i32" && kkind != "u64" { (cap - 3).saturating_sub(entries.len()) } else { (salt % 7) * 3 };
+    for j in 0..pad {
+        entries.push((sval(100 + j as u32).into_bytes(), true));
+    }
+    let null_empty = entries.len();
+    entries.push((vec![], false));
+    let null_garbage = entries.len();
+    entries.push((present.first().map(|&k| sval(k).into_bytes()).filter(|b| !b.is_empty()).unwrap_or_else(|| b"x".to_vec()), false));
+    // salt-dependent order
+    let n = entries.len();
+    let rot = salt % n;
+    let place = |i: usize| (i + n - rot) % n;
+    let mut rotated = entries.clone();
+    rotated.rotate_left(rot);
+    let mut key_valid = vec![];
+    let mut keys: Vec<u64> = vec![];
+    for (i, r) in rows.iter().enumerate() {
+        match r {
+            Some(id) => {
+                let p = &pos[present.binary_search(id).unwrap()];
+                keys.push(place(p[i % p.len()]) as u64);
+                key_valid.push(true);
+            }
+            None => match (i + salt) % 3 {
+                0 => {
+                    keys.push((i % n) as u64);
+                    key_valid.push(false);
+                }
+                1 => {
+                    keys.push(place(null_empty) as u64);
+                    key_valid.push(true);
+                }
+                _ => {
+                    keys.push(place(null_garbage) as u64);
+                    key_valid.push(true);
+                }
+            },
+        }
+    }
+    let nulls = if key_valid.iter().all(|b| *b) && salt % 2 == 0 { None } else { Some(NullBuffer::from(key_valid)) };
+    let values = build_dict_values(vkind, &rotated);
+    macro_rules! mk {
+        ($t:ty, $n:ty) => {
+            Arc::new(DictionaryArray::<$t>::new(PrimitiveArray::<$t>::new(keys.iter().map(|k| *k as $n).collect::<Vec<$n>>().into(), nulls), values)) as ArrayRef
+        };
+    }
+    match kkind {
+        "i8" => mk!(Int8Type, i8),
+        "u8" => mk!(UInt8Type, u8),
+        "u16" => mk!(UInt16Type, u16),
+        "u64" => mk!(UInt64Type, u64),
+        _ => mk!(Int32Type, i32),
+    }
+}
+
+/// logical rows of a dictionary array: null if the key is null OR the value slot is null
+fn decode_dict(ty: &str, a: &dyn Array) -> Result<Vec<Row>, String> {
+    let (_, vkind) = dict_kind(ty).unwrap();
+    let d = a.as_any_dictionary();
+    let nk = d.normalized_keys();
+    let values = d.values();
+    let mut out = vec![];
+    for i in 0..a.len() {
+        if d.keys().is_null(i) {
+            out.push(None);
+            continue;
+        }
+        let k = nk[i];
+        if k >= values.len() {
+            return Err(format!("GARBLED-ROW:{}", i));
+        }
+        if values.is_null(k) {
+            out.push(None);
+            continue;
+        }
+        let bytes: &[u8] = match vkind {
+            "lutf8" => values.as_string::<i64>().value(k).as_bytes(),
+            "bin" => values.as_binary::<i32>().value(k),
+            "lbin" => values.as_binary::<i64>().value(k),
+            _ => values.as_string::<i32>().value(k).as_bytes(),
+        };
+        match sval_id(bytes) {
+            Some(id) => out.push(Some(id)),
+            None => return Err(format!("GARBLED-ROW:{}", i)),
+        }
+    }
+    Ok(out)
+}
+
 
 fn data_type_of(ty: &str) -> DataType {
     match ty {
@@ -97,7 +265,10 @@ fn data_type_of(ty: &str) -> DataType {
         "lbin" => DataType::LargeBinary,
         "sv" => DataType::Utf8View,
         "bv" => DataType::BinaryView,
-        "dict" => DataType::Dictionary(Box::new(DataType::Int32), Box::new(DataType::Utf8)),
+        t if dict_kind(t).is_some() => {
+            let (k, v) = dict_kind(t).unwrap();
+            DataType::Dictionary(Box::new(key_type(k)), Box::new(value_type(v)))
+        }
         "fsb" => DataType::FixedSizeBinary(3),
         "list" => DataType::List(Arc::new(Field::new_list_field(DataType::Int32, true))),
         "fsl" => DataType::FixedSizeList(Arc::new(Field::new_list_field(DataType::Int32, true)), 2),
@@ -133,18 +304,7 @@ fn build_full(ty: &str, rows: &[Row], salt: usize) -> ArrayRef {
         "lbin" => Arc::new(LargeBinaryArray::from_iter(rows.iter().map(|r| r.map(|k| sval(k).into_bytes())))),
         "sv" => Arc::new(StringViewArray::from_iter(rows.iter().map(|r| r.map(sval)))),
         "bv" => Arc::new(BinaryViewArray::from_iter(rows.iter().map(|r| r.map(|k| sval(k).into_bytes())))),
-        "dict" => {
-            // dictionary = the ids present plus a few unused entries, in a salt-dependent order
-            let mut d: Vec<u32> = ids.clone();
-            d.extend_from_slice(&[61 + salt as u32 % 3, 70]);
-            d.sort();
-            d.dedup();
-            let rot = salt % d.len().max(1);
-            d.rotate_left(rot);
-            let keys: Vec<i32> = ids.iter().map(|k| d.iter().position(|x| x == k).unwrap() as i32).collect();
-            let values = StringArray::from_iter_values(d.iter().map(|&k| sval(k)));
-            Arc::new(DictionaryArray::<Int32Type>::new(Int32Array::new(keys.into(), nulls), Arc::new(values)))
-        }
+        t if dict_kind(t).is_some() => build_dict(t, rows, salt),
         "fsb" => {
             let bytes: Vec<u8> = ids.iter().flat_map(|&k| [k as u8, k as u8 ^ 0x5a, 7]).collect();
             Arc::new(FixedSizeBinaryArray::new(3, Buffer::from_vec(bytes), nulls))
@@ -222,6 +382,9 @@ fn decode(ty: &str, a: &dyn Array) -> Result<Vec<Row>, String> {
     if a.to_data().validate_full().is_err() {
         INVALID_RESULTS.fetch_add(1, std::sync::atomic::Ordering::Relaxed);
     }
+    if dict_kind(ty).is_some() {
+        return decode_dict(ty, a);
+    }
     let n = a.len();
     let mut out = Vec::with_capacity(n);
     for i in 0..n {
@@ -247,11 +410,6 @@ fn decode(ty: &str, a: &dyn Array) -> Result<Vec<Row>, String> {
             "lbin" => sval_id(a.as_binary::<i64>().value(i)),
             "sv" => sval_id(a.as_string_view().value(i).as_bytes()),
             "bv" => sval_id(a.as_binary_view().value(i)),
-            "dict" => {
-                let d = a.as_dictionary::<Int32Type>();
-                let k = d.keys().value(i) as usize;
-                sval_id(d.values().as_string::<i32>().value(k).as_bytes())
-            }
             "fsb" => {
                 let v = a.as_fixed_size_binary().value(i);
                 if v[1] == v[0] ^ 0x5a && v[2] == 7 { Some(v[0] as u32) } else { None }
@@ -377,6 +535,21 @@ fn us(s: &str) -> usize {
 fn parse_arrs(ty: &str, s: &str) -> Vec<ArrayRef> {
     if s == "-" {
         return vec![];
+    }
+    if ty == "dicts" {
+        // all inputs are slices of ONE dictionary array: same values buffers (ptr_eq fast path)
+        let parts: Vec<Vec<Row>> = s.split(';').map(|a| parse_rows(a.split_once(':').expect("arr").1)).collect();
+        let all: Vec<Row> = parts.iter().flatten().copied().collect();
+        let big = build_full(ty, &all, all.len() + 1);
+        let mut at = 0;
+        return parts
+            .iter()
+            .map(|p| {
+                let x = big.slice(at, p.len());
+                at += p.len();
+                x
+            })
+            .collect();
     }
     s.split(';')
         .map(|a| {
@@ -657,6 +830,16 @@ fn run_case(line: &str) -> String {
                         })
                         .collect()
                 };
+                if pairs.len() % 2 == 1 {
+                    // record-batch form
+                    let schema = Arc::new(Schema::new(vec![Field::new("c0", data_type_of(ty), true)]));
+                    let bs: Vec<RecordBatch> = arrs.iter().map(|a| RecordBatch::try_new(schema.clone(), vec![a.clone()]).unwrap()).collect();
+                    let brefs: Vec<&RecordBatch> = bs.iter().collect();
+                    return match arrow_select::interleave::interleave_record_batch(&brefs, &pairs) {
+                        Ok(b) => show_decoded(ty, b.column(0).as_ref()),
+                        Err(e) => err_class(&e),
+                    };
+                }
                 match interleave(&refs, &pairs) {
                     Ok(x) => show_decoded(ty, x.as_ref()),
                     Err(e) => err_class(&e),
@@ -1304,7 +1487,7 @@ fn gen_take_oob(rng: &mut Rng, ty: &str) -> (String, String) {
 }
 
 fn gen_coalesce(rng: &mut Rng) -> (String, String) {
-    let ty = *rng.pick(&["i32", "i64", "sv", "utf8", "i32+utf8", "i32+i64", "i32+sv", "i32", "sv", "list", "dict"]);
+    let ty = *rng.pick(&["i32", "i64", "sv", "utf8", "i32+utf8", "i32+i64", "i32+sv", "i32", "sv", "list", "dict", "dicti8", "dictu16", "dict"]);
     let target = if rng.chance(1, 4) { *rng.pick(&[1usize, 2, 3, 8, 16, 17, 64, 70]) } else { 1 + rng.usize(70) };
     let (limit, ltag) = match rng.below(4) {
         0 => (Some(rng.usize(target + 1)), "limit:small"),
